@@ -388,7 +388,7 @@ class Batch:
         self.inconc[why] = self.inconc.get(why, 0) + 1
 
     def result(self):
-        rec = {'hits': self.hits, 'sub_total': max(self.total, 1), 'sub_inconclusive': sum(self.inconc.values()),
+        rec = {'hits': self.hits, 'sub_total': (self.total or self.hits or 1), 'sub_inconclusive': sum(self.inconc.values()),
                'sub_inconclusive_why': self.inconc, 'features': self.feats, 'nontrivial': bool(self.nth),
                'nt_hashes': sorted(self.nth), 'sample': self.sample}
         if self.viol:
